@@ -178,6 +178,40 @@ Theorem C36_mem_wrong_password_rejected :
 Proof. exact mem_wrong_password. Qed.
 Print Assumptions C36_mem_wrong_password_rejected.
 
+(** Concurrent first use, Key being ONE critical section (mem: s.mu held over lookup + create +
+    insert; file: the package mutex of fix-serialise-key-creation): for EVERY schedule of any
+    number of callers of Key(name, pw_i) on a fresh store, at every moment every caller that
+    holds a key holds the stored one and has the stored password, every rejected caller was
+    rejected as invalid and has another password; once all have returned exactly one saw
+    created = true ([first_use_ok]). *)
+Theorem C36_concurrent_first_use :
+  forall name ths0 sched, Forall (fun t => t_out t = None) ths0 ->
+  let st := conc_run_atomic name ([], ths0) sched in
+  (forall t k c, In t (snd st) -> t_out t = Some (OutKey k c) -> exists pw0, mlookup (fst st) name = Some (k, pw0) /\ t_pw t = pw0) /\
+  (forall t e, In t (snd st) -> t_out t = Some (OutErr e) ->
+     e = EInvalidPassword /\ exists k pw0, mlookup (fst st) name = Some (k, pw0) /\ t_pw t <> pw0) /\
+  (snd st <> [] -> Forall (fun t => t_out t <> None) (snd st) -> first_use_ok (fst st) name (snd st) = true).
+Proof. exact conc_first_use. Qed.
+Print Assumptions C36_concurrent_first_use.
+
+(** the check-then-insert variant (lookup under one lock, insert under another, no re-check;
+    also what the unrepaired file keystore did with ReadFile ... WriteFile): a schedule under
+    which two callers with the same password both see created = true, receive different keys,
+    and the first one's key is not the stored one *)
+Theorem C36_check_then_insert_refuted :
+  exists name ths0 sched k1 k2,
+    Forall (fun t => s_pc t = SStart) ths0 /\
+    let st := conc_run_split name ([], ths0) sched in
+    map s_pc (snd st) = [SDone (OutKey k1 true); SDone (OutKey k2 true)] /\ k1 <> k2 /\
+    map s_pw ths0 = [[112]; [112]] /\
+    mlookup (fst st) name = Some (k2, [112]).
+Proof.
+  exists [110], [{| s_pw := [112]; s_newkey := [1]; s_pc := SStart |}; {| s_pw := [112]; s_newkey := [2]; s_pc := SStart |}],
+         [0; 1; 0; 1]%nat, [1], [2].
+  split; [repeat constructor|]. vm_compute. repeat split; try reflexivity. discriminate.
+Qed.
+Print Assumptions C36_check_then_insert_refuted.
+
 (** non-vacuity: toy primitives satisfying both laws, and a history that creates, re-reads,
     rejects, exports and imports *)
 Definition toy_kdf (pw salt : bytes) (_ : kparams) : option bytes := Some (repeat (fold_right N.add (hd 0 salt) pw) 32).
